@@ -150,6 +150,30 @@ class Func:
             self._nr = bool(c is not None and c.exit not in c.reachable())
         return self._nr
 
+    def canon(self, d):
+        """the variable a reference local / inlined reference parameter stands for (`T &x = y;`, a parameter of an inlined helper bound to
+        `y`): follows such bindings to a plain variable; d itself otherwise"""
+        m = getattr(self, '_canon', None)
+        if m is None:
+            m = {}
+            for n in self.nodes.values():
+                if n['k'] == 'decl':
+                    for v in n['v']:
+                        ent = self.decl(v['d'])
+                        if v.get('init') is not None and (ent.get('ref') or ent.get('inl_param')):
+                            t = unwrap(v['init'])
+                            if t is not None and t['k'] == 'ref':
+                                # an inlined by-value parameter is a copy, not an alias - only reference / pointer-free bindings qualify
+                                ty = self.unit.type(ent.get('ct')) if ent.get('ct') is not None else ''
+                                if ent.get('ref') or ty.rstrip().endswith('&'):
+                                    m[v['d']] = t['d']
+            self._canon = m
+        seen = 0
+        while d in m and seen < 8:
+            d = m[d]
+            seen += 1
+        return d
+
     def calls(self, name=None):
         for n in walk(self.body):
             if n['k'] == 'call' and (name is None or n.get('f') == name):
